@@ -19,6 +19,8 @@ import itertools
 import re
 import warnings
 
+import random
+
 PID = "C14"
 LEVEL = "proof"
 LEAN = ["SaVerif.Props.C14"]
@@ -1051,6 +1053,117 @@ def new_acc():
     return {"cases": [], "impl": [], "reqs": [], "post": []}
 
 
+# ---- one MetaData that keeps changing (direct oracle) -------------------------------------------
+# ops: ("T", i) add table ti   ("F", i, j, how) add a foreign key ti -> tj to the EXISTING table ti
+#      (how: 0 append_constraint, 1 append_column(Column(ForeignKey)), 2 Table(extend_existing))
+#      ("X", i) metadata.remove(ti)   ("S",) read sorted_tables / sort_tables_and_constraints
+# Only acyclic graphs; after every op sorted_tables and the CREATE order must be a permutation of the
+# tables that puts the referred table first for EVERY foreign key present at that moment.
+EVOLVE_DIRECTED = [
+    [("T", 0), ("T", 1), ("S",), ("F", 0, 1, 0), ("S",)],
+    [("T", 0), ("T", 1), ("T", 2), ("S",), ("F", 1, 2, 1), ("S",), ("F", 0, 1, 2), ("S",)],
+    [("T", 2), ("T", 1), ("T", 0), ("F", 2, 1, 0), ("S",), ("X", 1), ("S",), ("T", 1), ("F", 0, 1, 1), ("F", 1, 2, 0), ("S",)],
+]
+
+
+def evolve_gen(rng):
+    ops, live, edges = [], set(), set()
+
+    def reach(a, b):
+        seen, todo = set(), [a]
+        while todo:
+            x = todo.pop()
+            if x == b:
+                return True
+            if x not in seen:
+                seen.add(x)
+                todo.extend(d for (c, d) in edges if c == x)
+        return False
+
+    for _ in range(rng.randint(4, 14)):
+        r = rng.random()
+        free = [i for i in range(6) if i not in live]
+        if (r < 0.3 or len(live) < 2) and free:
+            i = rng.choice(free)
+            live.add(i)
+            ops.append(("T", i))
+        elif r < 0.7 and len(live) >= 2:
+            i, j = rng.sample(sorted(live), 2)
+            if not reach(j, i):  # ti -> tj keeps the graph acyclic
+                edges.add((i, j))
+                ops.append(("F", i, j, rng.randrange(3)))
+        elif r < 0.78 and live:
+            i = rng.choice(sorted(live))
+            live.discard(i)
+            edges = {(c, d) for (c, d) in edges if c != i and d != i}
+            ops.append(("X", i))
+        ops.append(("S",))
+    return ops
+
+
+def evolve_run(ops):
+    """-> list of (op index, detail) problems"""
+    from sqlalchemy import MetaData, Table, Column, Integer, ForeignKey, ForeignKeyConstraint
+    from sqlalchemy.sql import ddl
+
+    m = MetaData()
+    tabs, nfk, probs = {}, 0, []
+    for k, op in enumerate(ops):
+        if op[0] == "T":
+            tabs[op[1]] = Table("t%d" % op[1], m, Column("id", Integer, primary_key=True))
+        elif op[0] == "X":
+            t = tabs.pop(op[1], None)
+            if t is not None:
+                m.remove(t)
+                for o in tabs.values():  # an FK to a removed table would be unresolvable: drop it, as an application must
+                    for c in [c for c in o.constraints if isinstance(c, ForeignKeyConstraint) and c.elements[0].target_fullname.startswith(t.name + ".")]:
+                        o.constraints.discard(c)
+                        for e in c.elements:
+                            e.parent.foreign_keys.discard(e)
+                            o.foreign_keys.discard(e)
+        elif op[0] == "F":
+            i, j, how = op[1:]
+            if i not in tabs or j not in tabs:
+                continue
+            nfk += 1
+            col = "r%d" % nfk
+            if how == 0:
+                tabs[i].append_column(Column(col, Integer))
+                tabs[i].append_constraint(ForeignKeyConstraint([col], ["t%d.id" % j]))
+            elif how == 1:
+                tabs[i].append_column(Column(col, Integer, ForeignKey("t%d.id" % j)))
+            else:
+                Table("t%d" % i, m, Column(col, Integer, ForeignKey("t%d.id" % j)), extend_existing=True)
+        else:
+            want = sorted(t.name for t in tabs.values())
+            orders = {"sorted_tables": [t.name for t in m.sorted_tables],
+                      "sort_tables_and_constraints": [t.name for t, _ in ddl.sort_tables_and_constraints(list(m.tables.values())) if t is not None]}
+            for what, order in orders.items():
+                if sorted(order) != want:
+                    probs.append((k, "%s is not a permutation of the tables: %s vs %s" % (what, order, want)))
+                    continue
+                for t in tabs.values():
+                    for fk in t.foreign_keys:
+                        ref = fk.column.table.name
+                        if ref != t.name and order.index(ref) > order.index(t.name):
+                            probs.append((k, "%s lists %s before %s although %s.%s references %s: %s" % (what, t.name, ref, t.name, fk.parent.name, ref, order)))
+    return probs
+
+
+def evolve_block(ctx, n):
+    seqs = [list(o) for o in EVOLVE_DIRECTED]
+    for i in range(n):
+        seqs.append(evolve_gen(random.Random("C14:evolve:%d:%d" % (ctx.seed, i))))
+    for ops in seqs:
+        ops = [tuple(o) for o in ops]
+        probs = evolve_run(ops)
+        ctx.case(("evolve", repr(ops)), nontrivial=sum(1 for o in ops if o[0] == "F") > 0)
+        ctx.count("evolving-metadata")
+        if probs:
+            k, detail = probs[0]
+            ctx.violation("order-stale-after-metadata-change", {"evolve": [list(o) for o in ops[: k + 1]]}, detail)
+
+
 def run(ctx, deep=False):
     thorough = ctx.tier == "thorough" or deep
     ctx.rule = (
@@ -1105,6 +1218,7 @@ def run(ctx, deep=False):
         if len(acc["reqs"]) > 4000:
             flush(ctx, acc, "corr/c14:random-scripts-vs-Model.Ddl")
     flush(ctx, acc, "corr/c14:random-scripts-vs-Model.Ddl")
+    evolve_block(ctx, 4000 if thorough else 600)
     ctx.exhaustive = False
 
 
@@ -1127,6 +1241,10 @@ def search(ctx, broken):
 
 def replay(ctx, obj):
     c = obj["case"]
+    if "evolve" in c:
+        probs = evolve_run([tuple(o) for o in c["evolve"]])
+        print("replay C14 evolving metadata %s -> %s" % (c["evolve"], probs or "no violation"))
+        return bool(probs)
     tables = c["tables"]
     steps = [tuple(s) for s in c.get("steps", [])] or None
     acc = new_acc()
